@@ -24,6 +24,8 @@ def analyse_real(hx, fn, ext=()):
         elif t[0] == 'state': d['vars'][(t[2], t[3])] = ('state', int(t[1]))
         elif t[0] == 'variable': d['vars'][(t[2], t[3])] = (t[4], int(t[1]))
         elif t[0] == 'error': d['errors'].append(l[6:])
+        elif t[0] == 'xnlasys':
+            d.setdefault('nlasys', {})[int(t[1])] = (int(t[2]), [int(x) for x in t[4:]])
         elif t[0] == 'xequation':
             k = t.index('deps')
             d['eqs'].append({'type': t[1], 'vars': t[3:k], 'deps': [x.strip('[]').split(',') for x in t[k + 1:t.index('nla')]], 'nla': int(t[-1])})
@@ -62,6 +64,16 @@ def wellformed(a, real):
                 bad.append('%s.%s (%s) is computed by no equation' % (c, n, t))
             elif len(ks) > 1 and not all(real['eqs'][k]['type'] == 'nla' for k in ks):
                 bad.append('%s.%s is computed by %d equations that are not one NLA system' % (c, n, len(ks)))
+    # the equations of one NLA system carry one system index: siblings, and equations that compute a common variable
+    ns = real.get('nlasys', {})
+    for k, (idx, sibs) in ns.items():
+        for j in sibs:
+            if j in ns and ns[j][0] != idx:
+                bad.append('NLA equation %d (system %d) has sibling %d in system %d' % (k, idx, j, ns[j][0]))
+    for v, ks in computed.items():
+        idxs = set(ns[k][0] for k in ks if k in ns)
+        if len(idxs) > 1:
+            bad.append('%s is computed by equations of %d NLA systems' % (v, len(idxs)))
     # directly solved equations admit a dependency-first order
     direct = [k for k, e in enumerate(real['eqs']) if e['type'] not in ('nla', 'external')]
     owner = {}
@@ -124,6 +136,36 @@ def probes(chk, hx, wd, oracle):
             chk.known_finding(kf[pid]['what'])
         else:
             oracle.append(('the two-equation system %s is analysed as %s / %s (equations listed forwards / backwards), expected nla' % (eqs, types[0], types[1]), [text]))
+
+
+NLA3 = ('<?xml version="1.0" encoding="UTF-8"?>\n<model xmlns="http://www.cellml.org/cellml/2.0#" xmlns:cellml="http://www.cellml.org/cellml/2.0#" name="m"><component name="c">'
+        + ''.join('<variable name="%s" units="dimensionless" initial_value="1"/>' % v for v in 'abdex') + '<math xmlns="http://www.w3.org/1998/Math/MathML">%s</math></component></model>\n')
+NLA3_EQS = ['<apply><eq/><apply><plus/><ci>a</ci><ci>b</ci></apply><cn cellml:units="dimensionless">3</cn></apply>',
+            '<apply><eq/><apply><plus/><ci>d</ci><ci>e</ci></apply><cn cellml:units="dimensionless">7</cn></apply>',
+            '<apply><eq/><apply><times/><ci>b</ci><ci>d</ci><ci>x</ci></apply><cn cellml:units="dimensionless">6</cn></apply>']
+
+
+def nla_grouping_stage(chk, hx, wd, oracle, stats):
+    """three NLA equations of which two share no unknown and the third links them, in every order: whatever the analyser makes of the
+    system (see known finding C05-nla-unequal-unknowns), the equations it solves together carry one system index and the grouping does
+    not depend on the order"""
+    import itertools
+    seen = set()
+    for perm in itertools.permutations(range(3)):
+        text = NLA3 % ''.join(NLA3_EQS[i] for i in perm)
+        fn = os.path.join(wd, 'nla3.cellml'); open(fn, 'w').write(text)
+        real = analyse_real(hx, fn)
+        stats['nla_grouping'] = stats.get('nla_grouping', 0) + 1
+        if real is None:
+            oracle.append(('the analyser crashed', [text])); continue
+        ns = real.get('nlasys', {})
+        groups = frozenset(frozenset(perm[k] for k in ns if ns[k][0] == idx) for idx in set(v[0] for v in ns.values()))
+        seen.add((real['type'], groups))
+        for k, (idx, sibs) in ns.items():
+            if any(j in ns and ns[j][0] != idx for j in sibs):
+                oracle.append(('the sibling equations of an NLA system carry different system indices (%s) when the equations are listed in the order %s' % (sorted((k_, v_[0]) for k_, v_ in ns.items()), list(perm)), [text])); break
+    if len(seen) > 1 and not oracle:
+        oracle.append(('the grouping of three NLA equations into systems depends on the order in which they are listed: %s' % sorted((t, sorted(map(sorted, g))) for t, g in seen), [NLA3 % ''.join(NLA3_EQS)]))
 
 
 def relay_case(rng):
@@ -359,6 +401,7 @@ def run(chk, replay=None):
         if not replay:
             probes(chk, hx, wd, oracle)
             relay_stage(chk, hx, wd, rng, oracle, stats)
+            nla_grouping_stage(chk, hx, wd, oracle, stats)
     finally:
         shutil.rmtree(wd, ignore_errors=True)
     model = run_lines_parallel(drv, ['analyse'], lines)[1] if os.path.exists(drv) and lines else []
